@@ -55,6 +55,8 @@ class C06(Property):
         tracks = T.run_tracker(spec, etc, grid)
         nonempty = [k for k, f in enumerate(frames) if f]
         ctx.cls(spec["mode"], spec["method"], f"dim{spec['dim']}", "grid" if grid is not None else "nogrid", f"frames{len(frames)}")
+        if spec.get("far"):
+            ctx.cls("far-from-origin")
         counts = [len(f) for f in frames]
         gap = any(counts[k] == 0 for k in range(nonempty[0], nonempty[-1])) if len(nonempty) >= 2 else False
         varying = len(set(counts)) > 1
